@@ -39,6 +39,9 @@ CHECKS = {
  "C07": ("exploration", "bounded-exhaustive enumeration of workspace trees x compressor/option sets, each image read back with the real reader and compared entry by entry; superblock checked against the device write log",
          "Every ordered forest with <= 4 nodes over colliding names and sizes around the block size with zero-run/compressible/incompressible contents, plus symlinks (relative, absolute, dangling, long), mixed-compressibility files, a 2000-entry directory, 530 fragment tails (> 512 fragment blocks) and a sparse file, x {default, gzip-9, xz, lz4, zstd} x fragments on/off x NoCompress*/NoPad x block size 4 KiB/128 KiB/1 MiB x cache size {default, 0, one block} x start {0, 1 MiB}. Comparing every option set against the same source makes the views identical across option sets; bytes_used must equal the highest byte written (modulo 4 KiB padding) and the table starts must be ordered and inside.",
          "write log of memdev gives the bytes actually written", "DESIGN.md §3 C07"),
+ "C17": ("model_checking", "controlled cooperative scheduler over the real squashfs LRU and FileSystem code + stateless DFS over all interleavings up to a preemption bound; separate free-running -race pass",
+         "Harness U drives the real lru (get on two or three colliding positions, a failing fetch, concurrent setMaxBlocks) with 2-3 threads for maxBlocks in {0,1,2}; harness I drives 2-3 readers (own handles, files sharing one fragment block and the metadata blocks, a multi-block file) on a real squashfs image with cache {0, 1 block, 2 blocks, default} and concurrent SetCacheSize. Every interleaving at scheduling points (each mutex Lock/Unlock, each fetch, each device ReadAt) with at most 2 (quick) / 3 (thorough) preemptions is executed; each must finish (deadlock = no enabled thread, livelock = step horizon), return the bytes of the requested position / the sequential file contents, and leave a well-formed cache. A -race build then runs the same reader bodies free-running (GOMAXPROCS 1/4/16, 2-32 goroutines).",
+         "sync in filesystem/squashfs is redirected to the vsync shim by the build overlay; memory-model effects beyond happens-before are left to the race detector", "DESIGN.md §2.4, §3 C17"),
  "C02": ("exploration", "bounded-exhaustive enumeration of table inputs executed on the real Write/Read + independent on-disk parser",
          "Every table of a spelled-out finite cross product (entries, indices, spellings, geometries, names, attributes, types, disk sizes, sector sizes, PMBR, prior content) is written by the real code and compared via gpt.Read/mbr.Read, partition.Read, Disk.GetPartition and an independent UEFI-spec parser; exhaustive over that domain, says nothing outside it.",
          "memdev in-memory device; gptck (independent parser written from the UEFI spec) defines on-disk validity", "DESIGN.md §3 C02"),
